@@ -1,8 +1,379 @@
 /-
-C18 — property theorems (stub; see DESIGN.md §6).
+C18 — Data preparation is invertible; validation is atomic.
+Property theorems only; helper lemmas live in ArtProofs.Prep.
+
+Statement (given): for any finite data with non-constant columns, prepare_data
+returns values in [0,1] (complement-coded to double width for Fuzzy-based
+models) that the same estimator's validation accepts, re-uses the first call's
+column bounds for later data, and restore_data inverts it to numerical
+precision, as do normalisation and complement coding individually.  Data that is
+out of range, of the wrong width, non-binary for ART1 or not complement-coded
+for Fuzzy ART is rejected by fit, partial_fit and predict of the clustering
+estimators with an error before any model state changes.
+
+All theorems hold over every linearly ordered field (ℚ executed, ℝ intended);
+"to numerical precision" in floats is outside the theorems and measured by the
+check.  Hypotheses: `Rect X d` (numpy matrices are rectangular), `X ≠ []`
+(`np.min` raises on zero rows) and `NonConst X` (no column is constant, i.e. no
+divisor `d_max - d_min` is zero) — kept explicit, see
+`normalize_constant_column_counterexample`.
 -/
-import ArtModel.Basic
+import ArtProofs.Prep
 
 namespace Art.C18
+
+open List Art.Prep
+
+set_option linter.unusedSectionVars false
+
+variable {α : Type} [Field α] [LinearOrder α] [IsStrictOrderedRing α]
+
+/-! ### normalisation and complement coding individually -/
+
+/-- The non-constant hypothesis in terms of the data: if every column holds two
+different values then no divisor `d_max - d_min` is zero. -/
+theorem nonconst_of_cols_vary (X : Mat α) (d : Nat) (hX : Rect X d) (hne : X ≠ [])
+    (hv : ColsVary X d) : NonConst X :=
+  nonConst_of_colsVary hX hv hne
+
+/-- First call (no bounds remembered): the bounds returned are the column maxima
+and minima of the data, and every normalised entry lies in [0,1]. -/
+theorem normalize_in_unit (X : Mat α) (d : Nat) (hX : Rect X d) (hc : NonConst X) :
+    (normalize X none none).2 = (colMax X, colMin X) ∧
+    ∀ r ∈ (normalize X none none).1, ∀ v ∈ r, 0 ≤ v ∧ v ≤ 1 :=
+  ⟨rfl, normWith_in_unit hX hc⟩
+
+/-- `de_normalize ∘ normalize = id` on the first call, for non-constant columns. -/
+theorem denorm_norm (X : Mat α) (d : Nat) (hX : Rect X d) (hne : X ≠ []) (hc : NonConst X) :
+    deNormalize (normalize X none none).1 (normalize X none none).2.1 (normalize X none none).2.2 = X :=
+  deNormalize_normWith hX (nonConst_goodBounds hX hne hc)
+
+/-- `de_normalize ∘ normalize = id` with remembered bounds (any bounds of the
+right width with `d_max ≠ d_min` per column — the data need not lie inside them). -/
+theorem denorm_norm_remembered (X : Mat α) (d : Nat) (dmax dmin : List α) (hX : Rect X d)
+    (hb : GoodBounds dmax dmin d) :
+    deNormalize (normalize X (some dmax) (some dmin)).1 dmax dmin = X :=
+  deNormalize_normWith hX hb
+
+/-- Wherever no divisor is zero the total field division of the model is the
+division numpy performs: the IEEE-aware normalisation has no non-finite entry
+and equals the plain one. -/
+theorem normalize_finite (X : Mat α) (dmax dmin : List α) (hb : Forall₂ (· ≠ ·) dmax dmin) :
+    normWithChk dmax dmin X = (normWith dmax dmin X).map (fun r => r.map some) :=
+  normWithChk_eq hb
+
+/-- `de_compliment_code ∘ compliment_code = id` (no hypothesis at all). -/
+theorem decc_cc (X : Mat α) : deComplementCode (complementCode X) = some X :=
+  deComplementCode_complementCode X
+
+/-- Every complement-coded row has double width and sums to `d` exactly. -/
+theorem cc_rowsum (X : Mat α) (d : Nat) (hX : Rect X d) :
+    ∀ r ∈ complementCode X, r.length = 2 * d ∧ vsum r = (d : α) := by
+  intro r hr
+  refine ⟨complementCode_rect hX r hr, ?_⟩
+  simp only [complementCode, List.mem_map] at hr
+  obtain ⟨q, hq, rfl⟩ := hr
+  rw [vsum_ccRow, hX q hq]
+
+/-! ### prepare_data / restore_data pairs -/
+
+/-- `BaseART`: `restore_data(prepare_data(X)) = X` on a fresh module. -/
+theorem restore_prepare_base (X : Mat α) (d : Nat) (hX : Rect X d) (hne : X ≠ []) (hc : NonConst X) :
+    restoreBase (prepareBase {} X).2 (prepareBase {} X).1 = some X := by
+  simp only [prepareBase, restoreBase, Option.some.injEq]
+  exact denorm_norm X d hX hne hc
+
+/-- `BaseART`, later calls: with remembered bounds the pair still round-trips. -/
+theorem restore_prepare_base_later (X : Mat α) (d : Nat) (dmax dmin : List α) (hX : Rect X d)
+    (hb : GoodBounds dmax dmin d) :
+    let s : PrepState α := { dmax := some dmax, dmin := some dmin }
+    restoreBase (prepareBase s X).2 (prepareBase s X).1 = some X := by
+  simp only [prepareBase, restoreBase, Option.some.injEq]
+  exact denorm_norm_remembered X d dmax dmin hX hb
+
+/-- `FuzzyART`: `restore_data(prepare_data(X)) = X` on a fresh module. -/
+theorem restore_prepare_fuzzy (X : Mat α) (d : Nat) (hX : Rect X d) (hne : X ≠ []) (hc : NonConst X) :
+    restoreFuzzy (prepareFuzzy {} X).2 (prepareFuzzy {} X).1 = some X := by
+  simp only [prepareFuzzy, restoreFuzzy, decc_cc]
+  exact restore_prepare_base X d hX hne hc
+
+/-- `FuzzyART`, later calls. -/
+theorem restore_prepare_fuzzy_later (X : Mat α) (d : Nat) (dmax dmin : List α) (hX : Rect X d)
+    (hb : GoodBounds dmax dmin d) :
+    let s : PrepState α := { dmax := some dmax, dmin := some dmin }
+    restoreFuzzy (prepareFuzzy s X).2 (prepareFuzzy s X).1 = some X := by
+  simp only [prepareFuzzy, restoreFuzzy, decc_cc]
+  exact restore_prepare_base_later X d dmax dmin hX hb
+
+/-- Compound estimators (SimpleARTMAP, ARTMAP, DeepARTMAP, SMART, FusionART
+before the channel join, TopoART, DualVigilanceART, CVIART, FALCON): every
+module prepares and restores its own matrix with its own bounds, so the compound
+pair round-trips whenever every channel is fresh, rectangular, non-empty and
+non-constant. -/
+theorem restore_prepare_compound (cs : List (Chan α))
+    (h : ∀ c ∈ cs, c.2.1 = {} ∧ c.2.2 ≠ [] ∧ NonConst c.2.2 ∧ ∃ d, Rect c.2.2 d) :
+    restoreChans (prepareChans cs) = cs.map (fun c => some c.2.2) := by
+  simp only [restoreChans, prepareChans, List.map_map]
+  apply List.map_congr_left
+  intro c hc
+  obtain ⟨hs, hne, hnc, d, hX⟩ := h c hc
+  obtain ⟨k, s, X⟩ := c
+  simp only at hs hne hnc hX
+  subst hs
+  cases k
+  · exact restore_prepare_base X d hX hne hnc
+  · exact restore_prepare_fuzzy X d hX hne hnc
+
+/-! ### prepared data is accepted by the same class's validation -/
+
+/-- `BaseART`: the first `prepare_data` output passes `validate_data`, on a module
+that has not seen a width yet and on one that remembers the data width; the
+accepting call records `dim_ = d`. -/
+theorem prepare_passes_validate_base (X : Mat α) (d : Nat) (hX : Rect X d) (hne : X ≠ [])
+    (hc : NonConst X) :
+    validBase none (prepareBase {} X).1 = true ∧ validBase (some d) (prepareBase {} X).1 = true ∧
+    runValidate validBase {} (prepareBase {} X).1 = ({ dim := some d }, true) := by
+  have hu : inUnit (prepareBase {} X).1 = true := inUnit_iff.mpr (normWith_in_unit hX hc)
+  have hr : Rect (prepareBase {} X).1 d :=
+    normWith_rect hX (colMax_spec hX hne).1 (colMin_spec hX hne).1
+  have hw : width (prepareBase {} X).1 = d :=
+    width_of_rect hr (by simpa [prepareBase, normalize, normWith] using hne)
+  have h1 : validBase none (prepareBase {} X).1 = true := by simp [validBase, hu, widthOk]
+  refine ⟨h1, by simp [validBase, hu, widthOk, hw], ?_⟩
+  simp [runValidate, h1, hw]
+
+/-- `FuzzyART`: the first `prepare_data` output has width `2d`, lies in [0,1],
+has row sums `d` and passes `FuzzyART.validate_data`; the accepting call records
+`dim_ = 2d`. -/
+theorem prepare_passes_validate_fuzzy (X : Mat α) (d : Nat) (hX : Rect X d) (hne : X ≠ [])
+    (hc : NonConst X) :
+    validFuzzy none (prepareFuzzy {} X).1 = true ∧
+    validFuzzy (some (2 * d)) (prepareFuzzy {} X).1 = true ∧
+    runValidate validFuzzy {} (prepareFuzzy {} X).1 = ({ dim := some (2 * d) }, true) := by
+  have hr : Rect (prepareBase {} X).1 d :=
+    normWith_rect hX (colMax_spec hX hne).1 (colMin_spec hX hne).1
+  have hne' : (prepareBase {} X).1 ≠ [] := by simpa [prepareBase, normalize, normWith] using hne
+  have hu : inUnit (prepareFuzzy {} X).1 = true :=
+    inUnit_complementCode (inUnit_iff.mpr (normWith_in_unit hX hc))
+  have hw : width (prepareFuzzy {} X).1 = 2 * d :=
+    width_of_rect (complementCode_rect hr) (by simpa [prepareFuzzy, complementCode] using hne')
+  have hs : rowSumsOk (prepareFuzzy {} X).1 = true := rowSumsOk_complementCode hr hne'
+  have h1 : validFuzzy none (prepareFuzzy {} X).1 = true := by simp [validFuzzy, hu, hs, hw, widthOk]
+  refine ⟨h1, by simp [validFuzzy, hu, hs, hw, widthOk], ?_⟩
+  simp [runValidate, h1, hw]
+
+/-- `ART2A` (BaseART's pair): the prepared data passes `ART2A`'s validation exactly
+when the `alpha` bound holds for the data width. -/
+theorem prepare_passes_validate_art2a (alpha : α) (X : Mat α) (d : Nat) (hX : Rect X d)
+    (hne : X ≠ []) (hc : NonConst X) (ha : alpha * alpha * (d : α) ≤ 1) :
+    runValidateART2A alpha {} (prepareBase {} X).1 = ({ dim := some d }, true) := by
+  have hu : inUnit (prepareBase {} X).1 = true := inUnit_iff.mpr (normWith_in_unit hX hc)
+  have hr : Rect (prepareBase {} X).1 d :=
+    normWith_rect hX (colMax_spec hX hne).1 (colMin_spec hX hne).1
+  have hw : width (prepareBase {} X).1 = d :=
+    width_of_rect hr (by simpa [prepareBase, normalize, normWith] using hne)
+  simp [runValidateART2A, hu, hw, art2AlphaOk, ha]
+
+/-! ### later calls re-use the first call's bounds -/
+
+/-- After a first `prepare_data(X₁)`, a second call on any `X₂` leaves the
+remembered bounds unchanged and returns the affine map with the bounds of `X₁`
+(never those of `X₂`), for BaseART and, complement-coded, for FuzzyART. -/
+theorem bounds_reused (X₁ X₂ : Mat α) :
+    let s₁ := (prepareBase {} X₁).2
+    s₁ = { dmax := some (colMax X₁), dmin := some (colMin X₁) } ∧
+    prepareBase s₁ X₂ = (normWith (colMax X₁) (colMin X₁) X₂, s₁) ∧
+    prepareFuzzy (prepareFuzzy {} X₁).2 X₂ =
+      (complementCode (normWith (colMax X₁) (colMin X₁) X₂), s₁) :=
+  ⟨rfl, rfl, rfl⟩
+
+/-! ### rejection is atomic -/
+
+/-- `validate_data` of BaseART, FuzzyART and ART1 (`runValidate` of any
+acceptance predicate) leaves no trace when it rejects. -/
+theorem validate_pure_on_reject (valid : Option Nat → Mat α → Bool) :
+    PureOnReject (runValidate valid) := by
+  intro s X h
+  unfold runValidate at h ⊢
+  split at h
+  · simp at h
+  · rename_i hv
+    simp [hv]
+
+/-- Entry points `fit` / `partial_fit` / `predict` = `validate_data` first, then
+the body: if validation leaves no trace when it rejects, a rejected call raises
+the assertion error and returns the state it was given — whatever the body
+would have done, whatever the rest of the state (weights, labels, counters,
+maps) is, at any point of a history. -/
+theorem reject_is_noop {X τ ρ : Type} (validate : DimState → X → DimState × Bool)
+    (hp : PureOnReject validate) (body : DimState × τ → X → (DimState × τ) × ρ)
+    (s : DimState × τ) (x : X) (hrej : (validate s.1 x).2 = false) :
+    checked validate body s x = (s, .error .assert) := by
+  simp only [checked, hrej, Bool.false_eq_true, if_false, hp s.1 x hrej]
+
+/-- Conversely a call that does not raise went through validation. -/
+theorem ok_only_if_valid {X τ ρ : Type} (validate : DimState → X → DimState × Bool)
+    (body : DimState × τ → X → (DimState × τ) × ρ) (s : DimState × τ) (x : X) (r : ρ)
+    (h : (checked validate body s x).2 = .ok r) : (validate s.1 x).2 = true := by
+  cases hv : (validate s.1 x).2 with
+  | true => rfl
+  | false => simp [checked, hv] at h
+
+/-- BaseART / FuzzyART / ART1 entry points: data out of range, of the wrong
+width, non-binary (ART1) or not complement-coded (FuzzyART) is rejected before
+any model state changes. -/
+theorem reject_is_noop_elementary {τ ρ : Type} (valid : Option Nat → Mat α → Bool)
+    (body : DimState × τ → Mat α → (DimState × τ) × ρ) (s : DimState × τ) (X : Mat α)
+    (hrej : valid s.1.dim X = false) :
+    checked (runValidate valid) body s X = (s, .error .assert) :=
+  reject_is_noop _ (validate_pure_on_reject valid) body s X (by simp [runValidate, hrej])
+
+/-- Each kind of malformed matrix named in the property is rejected by the
+corresponding predicate: an entry above 1 or below 0 (BaseART, FuzzyART), a
+width different from the remembered one (all), an entry other than 0/1 (ART1),
+an odd width or a row whose sum is off by more than 0.01 (FuzzyART). -/
+theorem malformed_is_rejected (dim? : Option Nat) (X : Mat α) :
+    ((∃ r ∈ X, ∃ v ∈ r, v < 0 ∨ 1 < v) → validBase dim? X = false ∧ validFuzzy dim? X = false) ∧
+    ((∃ d, dim? = some d ∧ width X ≠ d) →
+      validBase dim? X = false ∧ validFuzzy dim? X = false ∧ validART1 dim? X = false) ∧
+    ((∃ r ∈ X, ∃ v ∈ r, v ≠ 0 ∧ v ≠ 1) → validART1 dim? X = false) ∧
+    (width X % 2 = 1 → validFuzzy dim? X = false) ∧
+    ((∃ r ∈ X, ccTol < vsum r - ((width X / 2 : Nat) : α) ∨
+        ccTol < ((width X / 2 : Nat) : α) - vsum r) → validFuzzy dim? X = false) := by
+  refine ⟨?_, ?_, ?_, ?_, ?_⟩
+  · rintro ⟨r, hr, v, hv, h⟩
+    have : inUnit X = false := by
+      rw [Bool.eq_false_iff]
+      intro hu
+      have := inUnit_iff.mp hu r hr v hv
+      rcases h with h | h
+      · exact absurd this.1 (not_le.mpr h)
+      · exact absurd this.2 (not_le.mpr h)
+    simp [validBase, validFuzzy, this]
+  · rintro ⟨d, rfl, hw⟩
+    simp [validBase, validFuzzy, validART1, widthOk, hw]
+  · rintro ⟨r, hr, v, hv, h0, h1⟩
+    have : isBinary X = false := by
+      rw [Bool.eq_false_iff]
+      intro hb
+      simp only [isBinary, List.all_eq_true, Bool.or_eq_true, decide_eq_true_eq] at hb
+      rcases hb r hr v hv with h | h
+      · exact h0 h
+      · exact h1 h
+    simp [validART1, this]
+  · intro h
+    simp [validFuzzy, h]
+  · rintro ⟨r, hr, h⟩
+    have : rowSumsOk X = false := by
+      rw [Bool.eq_false_iff]
+      intro hs
+      simp only [rowSumsOk, List.all_eq_true, Bool.and_eq_true, decide_eq_true_eq] at hs
+      have := hs r hr
+      rcases h with h | h
+      · exact absurd this.1 (not_le.mpr h)
+      · exact absurd this.2 (not_le.mpr h)
+    simp [validFuzzy, this]
+
+/-
+Full statement for ART2A (false of the code, finding C18-a; BayesianART's
+`cov_init` shape test is written in the same order, finding C18-b):
+
+  theorem reject_is_noop_art2a (alpha) body s X
+      (hrej : (runValidateART2A alpha s.1 X).2 = false) :
+      checked (runValidateART2A alpha) body s X = (s, .error .assert)
+
+`ART2A.check_dimensions` assigns `self.dim_ = X.shape[1]` and only then asserts
+`alpha <= 1/sqrt(dim_)`.
+-/
+
+/-- ART2A, fresh module, `alpha = 9/10`, one row of width 4 (`alpha²·4 > 1`): the
+call is rejected but `dim_ = 4` stays behind, and the very same data is accepted
+by the next call. -/
+theorem reject_is_noop_art2a_counterexample :
+    let X : Mat Rat := [[1/2, 1, 0, 0]]
+    let s : DimState := {}
+    (runValidateART2A (9/10 : Rat) s X).2 = false ∧
+    (runValidateART2A (9/10 : Rat) s X).1 = { dim := some 4 } ∧
+    (runValidateART2A (9/10 : Rat) s X).1 ≠ s ∧
+    (runValidateART2A (9/10 : Rat) (runValidateART2A (9/10 : Rat) s X).1 X).2 = true := by
+  norm_num [runValidateART2A, inUnit, art2AlphaOk, width]
+  exact Option.some_ne_none 4
+
+/-- ART2A: rejection is atomic whenever a width is already remembered, or the
+`alpha` bound holds for the width of the rejected matrix (then the rejection
+came from the range test, which runs before `check_dimensions`). -/
+theorem reject_is_noop_art2a_partial {τ ρ : Type} (alpha : α)
+    (body : DimState × τ → Mat α → (DimState × τ) × ρ) (s : DimState × τ) (X : Mat α)
+    (hextra : s.1.dim.isSome = true ∨ art2AlphaOk alpha (width X) = true)
+    (hrej : (runValidateART2A alpha s.1 X).2 = false) :
+    checked (runValidateART2A alpha) body s X = (s, .error .assert) := by
+  have hs : (runValidateART2A alpha s.1 X).1 = s.1 := by
+    unfold runValidateART2A at hrej ⊢
+    split
+    · cases hd : s.1.dim with
+      | none =>
+        rcases hextra with h | h
+        · simp [hd] at h
+        · rename_i hu
+          simp [hu, hd, h] at hrej
+      | some d => simp
+    · rfl
+  simp only [checked, hrej, Bool.false_eq_true, if_false, hs]
+
+/-! ### constant columns: what the code does -/
+
+/-- A constant column makes `d_max - d_min = 0`: the code divides 0 by 0 there
+(NaN in IEEE arithmetic, `none` in the IEEE-aware model), the hypothesis
+`NonConst` fails, and the NaN output is rejected by every `validate_data`.
+(The total division of a field would return 0 instead — which is why `NonConst`
+is an explicit hypothesis of every theorem above that divides.) -/
+theorem normalize_constant_column_counterexample :
+    let X : Mat Rat := [[1, 2], [1, 3]]
+    Rect X 2 ∧ ¬ NonConst X ∧
+    normWithChk (colMax X) (colMin X) X = [[none, some 0], [none, some 1]] := by
+  refine ⟨by simp [Rect], ?_, ?_⟩
+  · norm_num [NonConst, colMax, colMin, vmax, vmin]
+  · norm_num [normWithChk, normRowChk, colMax, colMin, vmax, vmin]
+
+/-! ### non-vacuity: a concrete 3×2 matrix with negative entries -/
+
+/-- the example matrix -/
+def X₀ : Mat Rat := [[1, -2], [3, 4], [-1, 0]]
+
+example : Rect X₀ 2 ∧ X₀ ≠ [] ∧ NonConst X₀ ∧ ColsVary X₀ 2 := by
+  refine ⟨by simp [Rect, X₀], by simp [X₀], ?_, ?_⟩
+  · norm_num [NonConst, X₀, colMax, colMin, vmax, vmin]
+  · intro j hj
+    have : j = 0 ∨ j = 1 := by omega
+    rcases this with rfl | rfl
+    · exact ⟨[1, -2], by simp [X₀], [3, 4], by simp [X₀], by norm_num⟩
+    · exact ⟨[1, -2], by simp [X₀], [3, 4], by simp [X₀], by norm_num⟩
+
+example : normalize X₀ none none = ([[1/2, 0], [1, 1], [0, 1/3]], [3, 4], [-1, -2]) := by
+  norm_num [X₀, normalize, normWith, normRow, colMax, colMin, vmax, vmin]
+
+example : (prepareFuzzy {} X₀).1 = [[1/2, 0, 1/2, 1], [1, 1, 0, 0], [0, 1/3, 1, 2/3]] := by
+  norm_num [X₀, prepareFuzzy, prepareBase, complementCode, ccRow, vcompl, normalize, normWith, normRow,
+    colMax, colMin, vmax, vmin]
+
+example : restoreFuzzy (prepareFuzzy {} X₀).2 (prepareFuzzy {} X₀).1 = some X₀ :=
+  restore_prepare_fuzzy X₀ 2 (by simp [Rect, X₀]) (by simp [X₀])
+    (by norm_num [NonConst, X₀, colMax, colMin, vmax, vmin])
+
+example : validFuzzy none (prepareFuzzy {} X₀).1 = true ∧ validBase none X₀ = false := by
+  norm_num [X₀, validFuzzy, validBase, inUnit, rowSumsOk, widthOk, width, ccTol, vsum, prepareFuzzy,
+    prepareBase, complementCode, ccRow, vcompl, normalize, normWith, normRow, colMax, colMin, vmax, vmin]
+
+/-- second call: `[[2, 2], [0, 1]]` is mapped with the bounds of `X₀`, not its own -/
+example : (prepareBase (prepareBase {} X₀).2 [[2, 2], [0, 1]]).1 = [[3/4, 2/3], [1/4, 1/2]] := by
+  norm_num [X₀, prepareBase, normalize, normWith, normRow, colMax, colMin, vmax, vmin]
+
+/-- a rejected `partial_fit` on a trained model: the state (here: `dim_ = 2` and
+a list of weights) comes back unchanged -/
+example :
+    checked (runValidate validBase) (fun s (_ : Mat Rat) => ((s.1, ([] : List Nat)), ()))
+      (({ dim := some 2 } : DimState), [7, 8]) [[1/2, 3/2]] =
+    ((({ dim := some 2 } : DimState), [7, 8]), .error .assert) := by
+  norm_num [checked, runValidate, validBase, inUnit, widthOk, width]
 
 end Art.C18
